@@ -847,8 +847,41 @@ fn report_program_fail(out: &mut Outcome, ev: &mut Evidence, stmts: &[Stmt], f: 
     out.violation(ev, &f.key, "json", &body, &format!("{}\n--- program ---\n{}", f.what, util::truncate(&render(stmts), 1500)));
 }
 
-/// Run programs on the farm and report failures. A failing program is first split into one-statement programs
-/// (built in parallel); what is reported is the smallest program that still fails (manual shrinking).
+/// Two signatures name the same failure class (a build failure is keyed by statement only once it is isolated).
+fn same_class(a: &str, b: &str) -> bool {
+    a == b || (a.contains("build-failed") && b.contains("build-failed"))
+}
+
+/// Manual shrinking of a failing program: the named statement alone if that still fails the same way, otherwise
+/// bisection (both halves are built in parallel; a zero-divisor statement stays the last one of its half).
+fn shrink_program(farm: &Farm, stmts: &[Stmt], idx: usize, key: &str) -> (Vec<Stmt>, Option<Fail>) {
+    let fails_with = |cand: &[Stmt], o: &FarmOut| -> Option<Fail> { judge_program(cand, o).ok()?.into_iter().map(|(_, f)| f).find(|f| same_class(&f.key, key)) };
+    if idx != usize::MAX && stmts.len() > 1 {
+        let single = vec![stmts[idx]];
+        let o = farm.run_many(&[Project::single("c04min", &render(&single))], Mode::BuildRun);
+        if let Some(f) = fails_with(&single, &o[0]) {
+            return (single, Some(f));
+        }
+    }
+    let mut cur: Vec<Stmt> = stmts.to_vec();
+    let mut last: Option<Fail> = None;
+    while cur.len() > 1 {
+        let (l, r) = cur.split_at(cur.len() / 2);
+        let o = farm.run_many(&[Project::single("c04bl", &render(l)), Project::single("c04br", &render(r))], Mode::BuildRun);
+        if let Some(f) = fails_with(l, &o[0]) {
+            last = Some(f);
+            cur = l.to_vec();
+        } else if let Some(f) = fails_with(r, &o[1]) {
+            last = Some(f);
+            cur = r.to_vec();
+        } else {
+            break;
+        }
+    }
+    (cur, last)
+}
+
+/// Run programs on the farm and report failures (one report per distinct signature, shrunk first).
 fn run_programs(farm: &Farm, programs: &[Vec<Stmt>], out: &mut Outcome, ev: &mut Evidence, strict: bool) {
     let projects: Vec<Project> = programs.iter().enumerate().map(|(i, st)| Project::single(&format!("c04p{i}"), &render(st))).collect();
     let outs = farm.run_many(&projects, Mode::BuildRun);
@@ -860,30 +893,17 @@ fn run_programs(farm: &Farm, programs: &[Vec<Stmt>], out: &mut Outcome, ev: &mut
             }
             Ok(f) => f,
         };
-        if fails.is_empty() {
-            continue;
+        let mut first_by_key: std::collections::BTreeMap<String, (usize, Fail)> = std::collections::BTreeMap::new();
+        for (idx, f) in fails {
+            ev.violations += 1;
+            first_by_key.entry(f.key.clone()).or_insert((idx, f));
         }
-        let mut reported_any = false;
-        if stmts.len() > 1 {
-            // candidates: the statements named by the failures, or all of them when the failure is global
-            let named: Vec<usize> = fails.iter().map(|(i, _)| *i).filter(|i| *i != usize::MAX).collect();
-            let idxs: Vec<usize> = if named.len() == fails.len() { named } else { (0..stmts.len()).collect() };
-            let singles: Vec<Vec<Stmt>> = idxs.iter().map(|i| vec![stmts[*i]]).collect();
-            let projs: Vec<Project> = singles.iter().enumerate().map(|(i, st)| Project::single(&format!("c04m{i}"), &render(st))).collect();
-            let o1 = farm.run_many(&projs, Mode::BuildRun);
-            for (single, oo) in singles.iter().zip(o1.iter()) {
-                if let Ok(ff) = judge_program(single, oo) {
-                    for (_, f) in ff {
-                        reported_any = true;
-                        report_program_fail(out, ev, single, &f, strict);
-                    }
-                }
+        for (key, (idx, f)) in first_by_key {
+            if out.seen(&key) || out.violations.len() >= out.max_reports {
+                continue;
             }
-        }
-        if !reported_any {
-            for (_, f) in &fails {
-                report_program_fail(out, ev, stmts, f, strict);
-            }
+            let (small, f_small) = shrink_program(farm, stmts, idx, &key);
+            report_program_fail(out, ev, &small, &f_small.unwrap_or(f), strict);
         }
     }
 }
@@ -1120,6 +1140,7 @@ fn main() {
         "py_mod_i64": gi(|| rt::py_mod_i64(i64::MIN, -1)).show(), "core": gi(|| incan_core::py_mod_i64_impl(i64::MIN, -1)).show()}));
 
     // ---------------- leg 1+2: kernels and parity
+    let t_kernel = std::time::Instant::now(); // evidence only, never a verdict
     let n_pairs: usize = args.tier.pick(134_000, 4_000_000);
     let chunk = 50_000usize;
     let n_chunks = n_pairs.div_ceil(chunk);
@@ -1205,6 +1226,8 @@ fn main() {
     if let Some(w) = selfcheck_fail {
         out.inconclusive(&format!("reference self-check failed: {w}"));
     }
+
+    ev.set("wall_s_kernel_leg", json!(t_kernel.elapsed().as_secs_f64()));
 
     // ---------------- leg 4: CPython cross-check of the reference (thorough)
     if xcheck_want > 0 {
@@ -1308,7 +1331,9 @@ fn main() {
     if let Some(pz) = programs.last() {
         ev.sample(json!({"leg": "e2e-zero-divisor", "program": util::truncate(&render(pz), 1500)}));
     }
+    let t_e2e = std::time::Instant::now();
     run_programs(&farm, &programs, &mut out, &mut ev, false);
+    ev.set("wall_s_e2e_leg", json!(t_e2e.elapsed().as_secs_f64()));
     ev.set("e2e_programs", json!(programs.len()));
     ev.set("e2e_statements", json!(e2e_stmt_count));
     ev.set("kernel_pairs", json!(n_pairs));
